@@ -268,3 +268,68 @@ Section Writer.
   Qed.
 
 End Writer.
+
+(** * The recogniser accepts what the generator produces (grammar as relation = recogniser) *)
+Lemma take2_render n r : 0 <= n <= 99 -> take2 (two n ++ r) = Some (n, r).
+Proof.
+  intros H. unfold two, dig, take2, digv, is_digit. cbn [app].
+  replace ((48 <=? 48 + n / 10) && (48 + n / 10 <=? 57)) with true by lia.
+  replace ((48 <=? 48 + n mod 10) && (48 + n mod 10 <=? 57)) with true by lia.
+  f_equal. f_equal. lia.
+Qed.
+Lemma take4_render n r : 0 <= n <= 9999 -> take4 (four n ++ r) = Some (n, r).
+Proof.
+  intros H. unfold take4. rewrite <- (four_split n H), <- app_assoc.
+  rewrite take2_render by lia. rewrite take2_render by lia. f_equal. f_equal. lia.
+Qed.
+Lemma take_digits_render ds r : forallb is_dig ds = true ->
+  match r with [] => True | c :: _ => is_digit c = false end ->
+  take_digits (map dig ds ++ r) = (ds, r).
+Proof.
+  intros Hd Hr. induction ds as [|d ds IH].
+  - cbn [map app]. destruct r as [|c r']; [reflexivity|]. cbn [take_digits]. rewrite Hr. reflexivity.
+  - cbn [forallb] in Hd. apply andb_prop in Hd. destruct Hd as [Hd Hds]. unfold is_dig in Hd.
+    cbn [map app take_digits]. change (dig d) with (48 + d). unfold is_digit.
+    replace ((48 <=? 48 + d) && (48 + d <=? 57)) with true by lia. rewrite (IH Hds). f_equal. f_equal. lia.
+Qed.
+Lemma zone_head_not_digit z r : wf_zone z = true ->
+  match render_zone z ++ r with [] => True | c :: _ => is_digit c = false /\ (c =? 46) = false end.
+Proof.
+  destruct z as [c|sg hh mm]; cbn [render_zone wf_zone app].
+  - intros H. unfold is_digit. lia.
+  - intros H. unfold render_sign. destruct (sg =? 0); [cbn; auto|]. destruct (sg =? 1); cbn; auto.
+Qed.
+Lemma rec_zone_render z : wf_zone z = true -> rec_zone (render_zone z) = Some (z, []).
+Proof.
+  destruct z as [c|sg hh mm]; cbn [render_zone wf_zone]; intros H.
+  - unfold rec_zone. rewrite H. reflexivity.
+  - unfold is2 in H. assert (Hsg : sg = 0 \/ sg = 1 \/ sg = 2) by lia.
+    assert (Hn : rec_numeric sg (two hh ++ [58] ++ two mm) = Some (Numeric sg hh mm, [])).
+    { unfold rec_numeric. rewrite take2_render by lia. cbn [obind app expect]. rewrite Z.eqb_refl. cbn [obind].
+      rewrite <- (app_nil_r (two mm)). rewrite take2_render by lia. reflexivity. }
+    destruct Hsg as [->|[->| ->]]; unfold rec_zone, render_sign; cbn [Z.eqb app orb andb Pos.eqb]; exact Hn.
+Qed.
+Theorem recognise_render f : wf f = true -> recognise (render f) = Some f.
+Proof.
+  intros Hw. unfold wf, is2 in Hw. repeat (apply andb_prop in Hw; destruct Hw as [Hw ?]).
+  unfold recognise, recognise_prefix, render.
+  rewrite take4_render by lia. cbn [obind app expect]. rewrite Z.eqb_refl. cbn [obind].
+  rewrite take2_render by lia. cbn [obind app expect]. rewrite Z.eqb_refl. cbn [obind].
+  rewrite take2_render by lia. cbn [obind app].
+  replace (is_sep (f_sep f)) with true by (unfold is_sep; lia). cbn [negb].
+  rewrite take2_render by lia. cbn [obind app expect]. rewrite Z.eqb_refl. cbn [obind].
+  rewrite take2_render by lia. cbn [obind app expect]. rewrite Z.eqb_refl. cbn [obind].
+  rewrite take2_render by lia. cbn [obind].
+  assert (Hz : wf_zone (f_zone f) = true) by assumption.
+  assert (Hfr : rec_frac (render_frac (f_frac f) ++ render_zone (f_zone f)) = Some (f_frac f, render_zone (f_zone f))).
+  { pose proof (zone_head_not_digit (f_zone f) [] Hz) as Hh. rewrite app_nil_r in Hh.
+    unfold rec_frac, render_frac. destruct (f_frac f) as [|d ds] eqn:Ef.
+    - cbn [app]. destruct (render_zone (f_zone f)) as [|c r]; [reflexivity|]. destruct Hh as [_ ->]. reflexivity.
+    - cbn [app]. rewrite Z.eqb_refl.
+      rewrite <- Ef in *. rewrite take_digits_render.
+      + rewrite Ef. reflexivity.
+      + assumption.
+      + destruct (render_zone (f_zone f)); [exact I|]. exact (proj1 Hh). }
+  rewrite Hfr. cbn [obind]. rewrite rec_zone_render by exact Hz. cbn [obind].
+  destruct f; reflexivity.
+Qed.
